@@ -4,6 +4,6 @@ CONSTANTS
   EmitB = TRUE
   NStart = 4
   OpFrom = 1
-  OpTo = 66
+  OpTo = 68
 INVARIANTS ObjectsOk RelativeOk StaysValid EmitBehaviour
 CHECK_DEADLOCK FALSE
